@@ -627,3 +627,288 @@ Section InvA.
         apply N.eqb_eq in Eh. subst h0. auto.
   Qed.
 End InvA.
+
+(* ---- invariant B: the dispatcher, its goroutines, and the counts of the trace -------------------- *)
+
+Record InvB (sc : scenario) (tr : list action) (s : state) : Prop := mkInvB {
+  b_out : forall n k out, s_disp s = DWait n k out ->
+            forall h, In h out -> is_bgh sc h = bg_phase k;
+  b_fg : forall n h, is_bgh sc h = false ->
+            (s_sp s n h + s_rn s n h = outc s n h)%nat /\ s_sg s n h = 0%nat;
+  b_bg : forall n h, is_bgh sc h = true -> s_sp s n h = outc s n h;
+  b_c1 : forall n h, (cnt (is_start n h) tr + s_sp s n h + s_sg s n h = spawned sc tr n h)%nat;
+  b_c2 : forall n h, cnt (is_start n h) tr = (cnt (is_end n h) tr + s_rn s n h)%nat;
+  b_c3 : forall n h, (spawned sc tr n h <= 1)%nat /\
+            ((0 < spawned sc tr n h)%nat ->
+             exists k, route (sc_decl sc) h (ev_at sc n) = Some k /\
+                       (9 * n + 2 + 2 * k <= dpos (s_disp s))%nat);
+  b_added : forall n h, (0 < s_sp s n h + s_sg s n h + s_rn s n h)%nat -> In h (added sc tr) }.
+
+Lemma added_mono sc tr a h : In h (added sc tr) -> In h (added sc (tr ++ [a])).
+Proof.
+  rewrite added_snoc. destruct a; simpl; auto. destruct op; simpl; auto.
+Qed.
+
+Section InvB.
+  Variable sc : scenario.
+  Hypothesis Hwf : wf_sc sc.
+
+  Lemma invB_init : InvB sc [] (init sc).
+  Proof.
+    constructor; unfold init, outc; simpl; intros; try discriminate; try lia; auto.
+    rewrite spawned_nil. split; lia.
+  Qed.
+
+  (* the selection of a snapshot, counted *)
+  Lemma snap_count tr s n k h :
+    InvA sc tr s ->
+    count_occ N.eq_dec (phase_ids (s_tbl s) (ev_at sc n) k) h =
+    if snap_hit sc n h (reg_of sc tr) (ASnap n k) then 1%nat else 0%nat.
+  Proof.
+    intros HA. destruct (wf_uid sc Hwf) as [U1 [U2 U3]].
+    pose proof (a_rel _ _ _ HA) as Hrel.
+    pose proof (phase_ids_nodup _ (sc_decl sc) U2 _ _ (ev_at sc n) k Hrel) as Hnd.
+    pose proof (phase_ids_in _ (sc_decl sc) U2 _ _ (ev_at sc n) k h Hrel (wf_event sc Hwf n)) as Hin.
+    simpl. rewrite Nat.eqb_refl. simpl.
+    destruct (mem_id h (reg_of sc tr)) eqn:Em; simpl.
+    - apply mem_id_in in Em.
+      destruct (route (sc_decl sc) h (ev_at sc n)) as [k'|] eqn:Er.
+      + destruct (Nat.eqb k' k) eqn:Ek.
+        * apply Nat.eqb_eq in Ek. subst k'.
+          apply NoDup_count_occ'; [exact Hnd|]. apply Hin. auto.
+        * apply count_occ_not_In. intros Hi. apply Hin in Hi as [_ Hi].
+          inversion Hi. subst. rewrite Nat.eqb_refl in Ek. discriminate.
+      + apply count_occ_not_In. intros Hi. apply Hin in Hi as [_ Hi]. discriminate.
+    - apply count_occ_not_In. intros Hi. apply Hin in Hi as [Hi _].
+      apply mem_id_in in Hi. congruence.
+  Qed.
+
+  Lemma snap_bg tr s n k h :
+    InvA sc tr s -> In h (phase_ids (s_tbl s) (ev_at sc n) k) -> is_bgh sc h = bg_phase k.
+  Proof.
+    intros HA Hi. destruct (wf_uid sc Hwf) as [U1 [U2 U3]].
+    pose proof (a_rel _ _ _ HA) as Hrel.
+    apply (phase_ids_in _ (sc_decl sc) U2 _ _ (ev_at sc n) k h Hrel (wf_event sc Hwf n)) in Hi as [_ Hr].
+    apply (route_spec (sc_decl sc) h (ev_at sc n) k (wf_event sc Hwf n)) in Hr.
+    unfold is_bgh, bg_phase. destruct (hd_bg (sc_decl sc h)); destruct Hr as [[_ ->]|[_ [_ ->]]]; reflexivity.
+  Qed.
+
+  Ltac eqb_cases :=
+    repeat match goal with
+    | |- context [Nat.eqb ?a ?b] =>
+      let E := fresh "En" in destruct (Nat.eqb a b) eqn:E;
+      [apply Nat.eqb_eq in E; try subst a|apply Nat.eqb_neq in E]
+    | |- context [N.eqb ?a ?b] =>
+      let E := fresh "Eh" in destruct (N.eqb a b) eqn:E;
+      [apply N.eqb_eq in E; try subst a|apply N.eqb_neq in E]
+    end; simpl.
+
+  (* steps that touch neither the dispatcher nor a goroutine nor count in the trace functions *)
+  Lemma invB_frame tr s a s' :
+    InvB sc tr s ->
+    s_disp s' = s_disp s -> s_sp s' = s_sp s -> s_sg s' = s_sg s -> s_rn s' = s_rn s ->
+    (forall n h, is_start n h a = false /\ is_end n h a = false) ->
+    (forall n h reg, snap_hit sc n h reg a = false) ->
+    InvB sc (tr ++ [a]) s'.
+  Proof.
+    intros [Hout Hfg Hbg Hc1 Hc2 Hc3 Hadd] Ed Esp Esg Ern Hcnt Hsnap.
+    constructor; unfold outc; rewrite ?Ed, ?Esp, ?Esg, ?Ern; intros.
+    - eapply Hout; eauto.
+    - apply Hfg; auto.
+    - apply Hbg; auto.
+    - rewrite cnt_snoc, spawned_snoc, Hsnap, (proj1 (Hcnt n h)). rewrite <- Hc1. lia.
+    - rewrite !cnt_snoc, (proj1 (Hcnt n h)), (proj2 (Hcnt n h)). rewrite (Hc2 n h). lia.
+    - rewrite spawned_snoc, Hsnap, Nat.add_0_r. apply Hc3.
+    - apply added_mono. eapply Hadd; eauto.
+  Qed.
+
+  Lemma invB_step tr s a s' :
+    InvA sc tr s -> InvB sc tr s -> step sc s a = Some s' -> InvB sc (tr ++ [a]) s'.
+  Proof.
+    intros HA HB Hst. destruct a.
+    - (* AArrive *)
+      apply (invB_frame tr s); auto; step_inv Hst; auto.
+    - (* ADeliver *)
+      unfold step in Hst. destruct (s_crashed s); [discriminate|].
+      destruct (s_disp s) as [m| |] eqn:Ed; try discriminate.
+      destruct (Nat.eqb n m && Nat.ltb n (s_arrived s)) eqn:Eg; [|discriminate].
+      apply Bool.andb_true_iff in Eg as [En _]. apply Nat.eqb_eq in En. subst m.
+      inversion Hst; subst; clear Hst.
+      destruct HB as [Hout Hfg Hbg Hc1 Hc2 Hc3 Hadd].
+      constructor; unfold outc in *; simpl; rewrite ?Ed in *; intros; try discriminate; auto.
+      + rewrite cnt_snoc, spawned_snoc. simpl. rewrite <- Hc1. lia.
+      + rewrite !cnt_snoc. simpl. rewrite (Hc2 n0 h). lia.
+      + rewrite spawned_snoc. simpl. rewrite Nat.add_0_r.
+        destruct (Hc3 n0 h) as [H1 H2]. split; [exact H1|].
+        intros Hp. destruct (H2 Hp) as [k [Hr Hk]]. exists k. split; [exact Hr|]. simpl in *. lia.
+      + apply added_mono. eapply Hadd; eauto.
+    - (* ASnap *)
+      unfold step in Hst. destruct (s_crashed s); [discriminate|].
+      destruct (s_disp s) as [|n' k'|] eqn:Ed; try discriminate.
+      destruct (Nat.eqb n n' && Nat.eqb k k') eqn:Eg; [|discriminate].
+      apply Bool.andb_true_iff in Eg as [En Ek]. apply Nat.eqb_eq in En, Ek. subst n' k'.
+      inversion Hst; subst; clear Hst.
+      pose proof (fun h => snap_count tr s n k h HA) as Hcount.
+      destruct HB as [Hout Hfg Hbg Hc1 Hc2 Hc3 Hadd].
+      constructor; unfold outc in *; simpl; rewrite ?Ed in *.
+      + intros n1 k1 out [= <- <- <-] h Hi. eapply snap_bg; eauto.
+      + intros n1 h Hb. rewrite spawn_all_spec. specialize (Hfg n1 h Hb). eqb_cases; lia.
+      + intros n1 h Hb. rewrite spawn_all_spec. specialize (Hbg n1 h Hb). eqb_cases; lia.
+      + intros n1 h. rewrite cnt_snoc, spawned_snoc, spawn_all_spec. simpl is_start. cbv iota.
+        specialize (Hc1 n1 h). destruct (Nat.eqb n1 n) eqn:En.
+        * apply Nat.eqb_eq in En. subst n1. rewrite Hcount. lia.
+        * simpl. rewrite Nat.eqb_sym, En. simpl. lia.
+      + intros n1 h. rewrite !cnt_snoc. simpl. rewrite (Hc2 n1 h). lia.
+      + intros n1 h. rewrite spawned_snoc. destruct (Hc3 n1 h) as [H1 H2].
+        destruct (snap_hit sc n1 h (reg_of sc tr) (ASnap n k)) eqn:Eh.
+        * simpl in Eh. apply Bool.andb_true_iff in Eh as [Eh Er].
+          apply Bool.andb_true_iff in Eh as [En _]. apply Nat.eqb_eq in En. subst n1.
+          destruct (route (sc_decl sc) h (ev_at sc n)) as [k1|] eqn:Ert; [|discriminate].
+          apply Nat.eqb_eq in Er. subst k1.
+          assert (spawned sc tr n h = 0)%nat as Hz.
+          { destruct (spawned sc tr n h) eqn:Es; [reflexivity|].
+            destruct H2 as [k2 [Hr2 Hk2]]; [lia|]. inversion Hr2. subst k2. simpl in Hk2.
+            pose proof (Nat.le_min_l k 3). lia. }
+          rewrite Hz. split; [lia|]. intros _. exists k. split; [reflexivity|]. simpl.
+          assert (k <= 3)%nat as Hk3.
+          { apply (route_spec (sc_decl sc) h (ev_at sc n) k (wf_event sc Hwf n)) in Ert.
+            destruct (hd_bg (sc_decl sc h)); destruct Ert as [[_ ->]|[_ [_ ->]]]; lia. }
+          rewrite Nat.min_l by exact Hk3. lia.
+        * rewrite Nat.add_0_r. split; [exact H1|]. intros Hp. destruct (H2 Hp) as [k2 [Hr2 Hk2]].
+          exists k2. split; [exact Hr2|]. simpl in *. lia.
+      + intros n1 h. rewrite spawn_all_spec. intros Hp. apply added_mono.
+        destruct (Nat.eqb n1 n) eqn:En.
+        * destruct (count_occ N.eq_dec (phase_ids (s_tbl s) (ev_at sc n) k) h) eqn:Ec.
+          -- eapply Hadd. rewrite Nat.add_0_r in Hp. exact Hp.
+          -- apply (a_sub _ _ _ HA). destruct (wf_uid sc Hwf) as [U1 [U2 U3]].
+             assert (In h (phase_ids (s_tbl s) (ev_at sc n) k)) as Hi
+               by (apply (count_occ_In N.eq_dec); lia).
+             apply (phase_ids_in _ (sc_decl sc) U2 _ _ (ev_at sc n) k h (a_rel _ _ _ HA) (wf_event sc Hwf n)) in Hi.
+             tauto.
+        * eapply Hadd. rewrite Nat.add_0_r in Hp. exact Hp.
+    - (* ASignal *)
+      unfold step in Hst. destruct (s_crashed s); [discriminate|].
+      destruct (s_disp s) as [| |n' k out] eqn:Ed; try discriminate.
+      destruct (Nat.eqb n n' && bg_phase k && mem_N h out && Nat.ltb 0 (s_sp s n h)) eqn:Eg; [|discriminate].
+      apply Bool.andb_true_iff in Eg as [Eg Esp]. apply Bool.andb_true_iff in Eg as [Eg Em].
+      apply Bool.andb_true_iff in Eg as [En Ebg]. apply Nat.eqb_eq in En. subst n'.
+      apply Nat.ltb_lt in Esp. inversion Hst; subst; clear Hst.
+      destruct HB as [Hout Hfg Hbg Hc1 Hc2 Hc3 Hadd].
+      assert (is_bgh sc h = true) as Hhbg.
+      { rewrite (Hout n k out Ed h); [exact Ebg|]. apply mem_N_in. exact Em. }
+      pose proof (mem_N_count h out Em) as Hcnt.
+      constructor; unfold outc in *; simpl; rewrite ?Ed in *.
+      + intros n1 k1 out1 [= <- <- <-] h1 Hi. apply (Hout n k out eq_refl). eapply remove1_in; eauto.
+      + intros n1 h1 Hb. specialize (Hfg n1 h1 Hb). rewrite !upd2_get, remove1_count.
+        assert (h1 <> h) by congruence. eqb_cases; try congruence; lia.
+      + intros n1 h1 Hb. specialize (Hbg n1 h1 Hb). rewrite !upd2_get, remove1_count, Em.
+        eqb_cases; try congruence; simpl; try lia.
+      + intros n1 h1. rewrite cnt_snoc, spawned_snoc. simpl. specialize (Hc1 n1 h1).
+        rewrite !upd2_get. eqb_cases; simpl; lia.
+      + intros n1 h1. rewrite !cnt_snoc. simpl. rewrite (Hc2 n1 h1). lia.
+      + intros n1 h1. rewrite spawned_snoc. simpl. rewrite Nat.add_0_r. apply Hc3.
+      + intros n1 h1. rewrite !upd2_get. intros Hp. apply added_mono. apply (Hadd n1 h1).
+        revert Hp. eqb_cases; simpl; lia.
+    - (* AStart *)
+      unfold step in Hst. destruct (s_crashed s); [discriminate|].
+      destruct (is_bgh sc h) eqn:Ebgh.
+      + (* background: the inner goroutine enters the function *)
+        destruct (Nat.ltb 0 (s_sg s n h)) eqn:Esg; [|discriminate]. apply Nat.ltb_lt in Esg.
+        inversion Hst; subst; clear Hst.
+        destruct HB as [Hout Hfg Hbg Hc1 Hc2 Hc3 Hadd].
+        constructor; unfold outc in *; simpl.
+        * exact Hout.
+        * intros n1 h1 Hb. specialize (Hfg n1 h1 Hb). rewrite !upd2_get.
+          assert (h1 <> h) by congruence. eqb_cases; try congruence; lia.
+        * intros n1 h1 Hb. exact (Hbg n1 h1 Hb).
+        * intros n1 h1. rewrite cnt_snoc, spawned_snoc. simpl. specialize (Hc1 n1 h1).
+          rewrite !upd2_get. rewrite (Nat.eqb_sym n n1), (N.eqb_sym h h1). eqb_cases; simpl; lia.
+        * intros n1 h1. rewrite !cnt_snoc. simpl. specialize (Hc2 n1 h1).
+          rewrite !upd2_get. rewrite (Nat.eqb_sym n n1), (N.eqb_sym h h1). eqb_cases; simpl; lia.
+        * intros n1 h1. rewrite spawned_snoc. simpl. rewrite Nat.add_0_r. apply Hc3.
+        * intros n1 h1. rewrite !upd2_get. intros Hp. apply added_mono. apply (Hadd n1 h1).
+          revert Hp. eqb_cases; simpl; lia.
+      + (* foreground: the wrapper enters the function *)
+        destruct (s_disp s) as [| |n' k out] eqn:Ed; try discriminate.
+        destruct (Nat.eqb n n' && negb (bg_phase k) && mem_N h out && Nat.ltb 0 (s_sp s n h)) eqn:Eg; [|discriminate].
+        apply Bool.andb_true_iff in Eg as [Eg Esp]. apply Nat.ltb_lt in Esp.
+        inversion Hst; subst; clear Hst.
+        destruct HB as [Hout Hfg Hbg Hc1 Hc2 Hc3 Hadd].
+        constructor; unfold outc in *; simpl; rewrite ?Ed in *.
+        * exact Hout.
+        * intros n1 h1 Hb. specialize (Hfg n1 h1 Hb). rewrite !upd2_get. eqb_cases; lia.
+        * intros n1 h1 Hb. specialize (Hbg n1 h1 Hb). rewrite !upd2_get.
+          assert (h1 <> h) by congruence. eqb_cases; try congruence; lia.
+        * intros n1 h1. rewrite cnt_snoc, spawned_snoc. simpl. specialize (Hc1 n1 h1).
+          rewrite !upd2_get. rewrite (Nat.eqb_sym n n1), (N.eqb_sym h h1). eqb_cases; simpl; lia.
+        * intros n1 h1. rewrite !cnt_snoc. simpl. specialize (Hc2 n1 h1).
+          rewrite !upd2_get. rewrite (Nat.eqb_sym n n1), (N.eqb_sym h h1). eqb_cases; simpl; lia.
+        * intros n1 h1. rewrite spawned_snoc. simpl. rewrite Nat.add_0_r. apply Hc3.
+        * intros n1 h1. rewrite !upd2_get. intros Hp. apply added_mono. apply (Hadd n1 h1).
+          revert Hp. eqb_cases; simpl; lia.
+    - (* AEnd *)
+      unfold step in Hst. destruct (s_crashed s); [discriminate|].
+      destruct (Nat.ltb 0 (s_rn s n h)) eqn:Ern; [|discriminate]. apply Nat.ltb_lt in Ern.
+      destruct (is_bgh sc h) eqn:Ebgh.
+      + inversion Hst; subst; clear Hst.
+        destruct HB as [Hout Hfg Hbg Hc1 Hc2 Hc3 Hadd].
+        constructor; unfold outc in *; simpl.
+        * exact Hout.
+        * intros n1 h1 Hb. specialize (Hfg n1 h1 Hb). rewrite !upd2_get.
+          assert (h1 <> h) by congruence. eqb_cases; try congruence; lia.
+        * intros n1 h1 Hb. exact (Hbg n1 h1 Hb).
+        * intros n1 h1. rewrite cnt_snoc, spawned_snoc. simpl. specialize (Hc1 n1 h1). lia.
+        * intros n1 h1. rewrite !cnt_snoc. simpl. specialize (Hc2 n1 h1).
+          rewrite !upd2_get. rewrite (Nat.eqb_sym n n1), (N.eqb_sym h h1). eqb_cases; simpl; lia.
+        * intros n1 h1. rewrite spawned_snoc. simpl. rewrite Nat.add_0_r. apply Hc3.
+        * intros n1 h1. rewrite !upd2_get. intros Hp. apply added_mono. apply (Hadd n1 h1).
+          revert Hp. eqb_cases; simpl; lia.
+      + destruct (s_disp s) as [| |n' k out] eqn:Ed; try discriminate.
+        destruct (Nat.eqb n n' && mem_N h out) eqn:Eg; [|discriminate].
+        apply Bool.andb_true_iff in Eg as [En Em]. apply Nat.eqb_eq in En. subst n'.
+        inversion Hst; subst; clear Hst.
+        pose proof (mem_N_count h out Em) as Hcnt.
+        destruct HB as [Hout Hfg Hbg Hc1 Hc2 Hc3 Hadd].
+        constructor; unfold outc in *; simpl; rewrite ?Ed in *.
+        * intros n1 k1 out1 [= <- <- <-] h1 Hi. apply (Hout n k out eq_refl). eapply remove1_in; eauto.
+        * intros n1 h1 Hb. specialize (Hfg n1 h1 Hb). rewrite !upd2_get, remove1_count, Em.
+          eqb_cases; try congruence; simpl; lia.
+        * intros n1 h1 Hb. specialize (Hbg n1 h1 Hb). rewrite remove1_count.
+          assert (h1 <> h) by congruence. eqb_cases; try congruence; simpl; lia.
+        * intros n1 h1. rewrite cnt_snoc, spawned_snoc. simpl. specialize (Hc1 n1 h1). lia.
+        * intros n1 h1. rewrite !cnt_snoc. simpl. specialize (Hc2 n1 h1).
+          rewrite !upd2_get. rewrite (Nat.eqb_sym n n1), (N.eqb_sym h h1). eqb_cases; simpl; lia.
+        * intros n1 h1. rewrite spawned_snoc. simpl. rewrite Nat.add_0_r. apply Hc3.
+        * intros n1 h1. rewrite !upd2_get. intros Hp. apply added_mono. apply (Hadd n1 h1).
+          revert Hp. eqb_cases; simpl; lia.
+    - (* ABarrier *)
+      unfold step in Hst. destruct (s_crashed s); [discriminate|].
+      destruct (s_disp s) as [| |n' k' [|x out]] eqn:Ed; try discriminate.
+      destruct (Nat.eqb n n' && Nat.eqb k k') eqn:Eg; [|discriminate].
+      apply Bool.andb_true_iff in Eg as [En Ek]. apply Nat.eqb_eq in En, Ek. subst n' k'.
+      inversion Hst; subst; clear Hst.
+      destruct HB as [Hout Hfg Hbg Hc1 Hc2 Hc3 Hadd].
+      assert (forall n1 h1, outc (set_disp s (if Nat.ltb k 3 then DPhase n (S k) else DIdle (S n))) n1 h1 = 0%nat) as Hz.
+      { intros. unfold outc. simpl. destruct (Nat.ltb k 3); reflexivity. }
+      constructor; simpl; try (unfold outc in Hfg, Hbg; rewrite Ed in Hfg, Hbg).
+      * intros n1 k1 out1 Heq. destruct (Nat.ltb k 3); discriminate.
+      * intros n1 h1 Hb. rewrite Hz. specialize (Hfg n1 h1 Hb). simpl in Hfg.
+        destruct (Nat.eqb n n1); exact Hfg.
+      * intros n1 h1 Hb. rewrite Hz. specialize (Hbg n1 h1 Hb). simpl in Hbg.
+        destruct (Nat.eqb n n1); exact Hbg.
+      * intros n1 h1. rewrite cnt_snoc, spawned_snoc. simpl. specialize (Hc1 n1 h1). lia.
+      * intros n1 h1. rewrite !cnt_snoc. simpl. rewrite (Hc2 n1 h1). lia.
+      * intros n1 h1. rewrite spawned_snoc. simpl. rewrite Nat.add_0_r.
+        destruct (Hc3 n1 h1) as [H1 H2]. split; [exact H1|].
+        intros Hp. destruct (H2 Hp) as [k2 [Hr Hk]]. exists k2. split; [exact Hr|].
+        rewrite Ed in Hk. simpl in Hk. destruct (Nat.ltb k 3) eqn:Ek3; simpl.
+        -- apply Nat.ltb_lt in Ek3. lia.
+        -- apply Nat.ltb_ge in Ek3. lia.
+      * intros n1 h1 Hp. apply added_mono. eapply Hadd; eauto.
+    - (* ACall *) apply (invB_frame tr s); auto; step_inv Hst; auto.
+    - (* ALin *) apply (invB_frame tr s); auto; step_inv Hst; auto.
+    - (* ARet *) apply (invB_frame tr s); auto; step_inv Hst; auto.
+    - (* ATmpRemove *) apply (invB_frame tr s); auto; step_inv Hst; auto.
+    - (* AClose *) apply (invB_frame tr s); auto; step_inv Hst; auto.
+  Qed.
+End InvB.
